@@ -125,6 +125,10 @@ family! {
     (51, "F0r:0.Gcore::task::poll::Poll:1.F0r:0.Pi32", f51, None, [], (), std::task::Poll<fn() -> i32>),
     (52, "F0r:0.Gcore::task::poll::Poll:1.Pi32", f52, None, [], (), std::task::Poll<i32>),
     (53, "F0r:0.Gcore::option::Option:1.F0r:1.Pi32.Pbool", f53, None, [], (), Option<fn(i32) -> bool>),
+    // the unwinding variants of the C and system ABIs next to f13 / f14 / f15
+    (54, "F0u:1.Pi32.Pbool",                 f54, None, [extern "C-unwind"], (i32), bool),
+    (55, "F1u:1.Pi32.Pbool",                 f55, None, [unsafe extern "C-unwind"], (i32), bool),
+    (56, "F1v:1.Pi32.Pbool",                 f56, None, [unsafe extern "system-unwind"], (i32), bool),
 }
 
 pub struct BoolEntry {
